@@ -2,8 +2,15 @@ import PortusModel.Lang.Fragment
 /-!
 # `lower ≈ Sem`: the reference lowering computes the source semantics (C01, second half)
 
-Part 1: register-file algebra, the simulation relation in coordinates, pure expressions (stage 1)
-and statements (stage 2). Part 2 (`LowerSem2.lean`): events, invocations, runs, program switch.
+Part 1: register-file algebra, the simulation relation in coordinates, value expressions (stage 1:
+pure expressions and hazard-free nested binds, `valueE`) and statements (stage 2, `stmtOk2`).
+Part 2 (`LowerSem2.lean`): events, invocations, runs, program switch.
+
+Stage 1 was first proved for pure expressions only (no assignment inside an expression). It now covers
+`valueE`: evaluation may change the source state, the machine state follows (`Sim ρ s' c'`), and the result
+register holds the value *after* the whole expression ran. The new ingredient is hazard freedom
+(`operand_safe`): the code of a right operand never writes the result register of the left operand —
+temporaries by the counter discipline, named variables by `noHazard` and `RhoOk.inj`.
 
 ## Corrections to the statements as first proposed (see the final report)
 
@@ -323,247 +330,6 @@ theorem evalE_or_ok {env : Env} {s s1 s2 : Sem.SrcState} {l r : Expr} {a b : Val
 
 
 
-/-! ## stage 1: pure expressions -/
-
-theorem lowerE_sexp_inv {ρ : Rho} {o : Op} {l r : Expr} {k : Nat} {le : LE}
-    (h : lowerE ρ (.sexp o l r) k = some le) :
-    ∃ code cl cr, pureOpcode o = some code ∧ lowerE ρ l k = some cl ∧ lowerE ρ r cl.k = some cr ∧
-      le = ⟨cl.instrs ++ cr.instrs ++ [⟨code, vTmp cr.k, cl.reg, cr.reg⟩], vTmp cr.k, cr.k + 1⟩ := by
-  simp only [lowerE] at h
-  split at h
-  · rename_i code cl ho hl
-    split at h
-    · rename_i cr hr
-      exact ⟨code, cl, cr, ho, hl, hr, (Option.some.inj h).symm⟩
-    · cases h
-  · cases h
-
-/-- the syntactic shape of lowered code: the counter grows, the result register (if a temporary)
-and every written register is a temporary allocated by this call, all opcodes are ALU opcodes -/
-theorem lowerE_shape {ρ : Rho} {decls : List Sem.VarDecl} (hρ : RhoOk ρ decls) :
-    ∀ (e : Expr) (k : Nat) (le : LE), lowerE ρ e k = some le →
-      k ≤ le.k ∧ (le.reg.cls = 7 → k ≤ le.reg.idx ∧ le.reg.idx < le.k) ∧
-      ∀ i ∈ le.instrs, i.ret.cls = 7 ∧ k ≤ i.ret.idx ∧ i.ret.idx < le.k ∧ AluOp i.op := by
-  intro e
-  induction e with
-  | atom p =>
-    intro k le h
-    cases p with
-    | bool b => simp only [lowerE, Option.some.injEq] at h; subst h; simp [vImmBool]
-    | num n => simp only [lowerE, Option.some.injEq] at h; subst h; simp [vImmNum]
-    | name x =>
-      simp only [lowerE, Option.map_eq_some_iff] at h
-      obtain ⟨r, hr, rfl⟩ := h
-      have := rho_not_tmp hρ hr
-      simp [this]
-  | cmd c => intro k le h; simp [lowerE] at h
-  | none => intro k le h; simp [lowerE] at h
-  | sexp o l r ihl ihr =>
-    intro k le h
-    obtain ⟨code, cl, cr, ho, hl, hr, rfl⟩ := lowerE_sexp_inv h
-    obtain ⟨l1, l2, l3⟩ := ihl k cl hl
-    obtain ⟨r1, r2, r3⟩ := ihr cl.k cr hr
-    refine ⟨by simp only; omega, fun _ => by simp only [vTmp]; omega, ?_⟩
-    intro i hi
-    simp only [List.mem_append, List.mem_singleton] at hi
-    rcases hi with (hi | hi) | rfl
-    · obtain ⟨h1, h2, h3, h4⟩ := l3 i hi; exact ⟨h1, by omega, by simp only; omega, h4⟩
-    · obtain ⟨h1, h2, h3, h4⟩ := r3 i hi; exact ⟨h1, by omega, by simp only; omega, h4⟩
-    · exact ⟨rfl, by simp only [vTmp]; omega, by simp only [vTmp]; omega, pureOpcode_alu ho⟩
-
-/-- the outcome of running lowered code `is` (result register `reg`, allocated from counter `k`)
-against the source evaluation of `e`, as a disjunction -/
-def PureRes (ρ : Rho) (env : Env) (s : Sem.SrcState) (c : Conn) (k : Nat) (e : Expr) (is : List VInstr)
-    (reg : VReg) : Prop :=
-  (∃ v c', Sem.evalE env s e = .ok s v ∧ execInstrs env c is = (c', 0) ∧ Sim ρ s c' ∧ RegsWf c' ∧
-      readReg env c' reg = v ∧ TmpFrame k c c') ∨
-  (∃ rc c', Sem.evalE env s e = .fault s rc ∧ rc < 0 ∧ execInstrs env c is = (c', rc) ∧ Sim ρ s c' ∧
-      RegsWf c' ∧ TmpFrame k c c') ∨
-  Sem.evalE env s e = .outside
-
-/-- both operands of a two-operand construct, the second lowered from the counter where the first stopped -/
-def OperandsRes (ρ : Rho) (env : Env) (s : Sem.SrcState) (c : Conn) (k : Nat) (l r : Expr) (cl cr : LE) : Prop :=
-  (∃ a b c', Sem.evalE env s l = .ok s a ∧ Sem.evalE env s r = .ok s b ∧
-      execInstrs env c (cl.instrs ++ cr.instrs) = (c', 0) ∧ Sim ρ s c' ∧ RegsWf c' ∧
-      readReg env c' cl.reg = a ∧ readReg env c' cr.reg = b ∧ TmpFrame k c c') ∨
-  (∃ rc c', (Sem.evalE env s l = .fault s rc ∨ ∃ a, Sem.evalE env s l = .ok s a ∧ Sem.evalE env s r = .fault s rc) ∧
-      rc < 0 ∧ execInstrs env c (cl.instrs ++ cr.instrs) = (c', rc) ∧ Sim ρ s c' ∧ RegsWf c' ∧ TmpFrame k c c') ∨
-  (Sem.evalE env s l = .outside ∨ ∃ a, Sem.evalE env s l = .ok s a ∧ Sem.evalE env s r = .outside)
-
-theorem operands_res {ρ : Rho} {env : Env} {s : Sem.SrcState} {c : Conn} {k : Nat} {l r : Expr} {cl cr : LE}
-    (hk : k ≤ cl.k) (hreg : cl.reg.cls = 7 → cl.reg.idx < cl.k)
-    (hl : PureRes ρ env s c k l cl.instrs cl.reg)
-    (hr : ∀ c1, Sim ρ s c1 → RegsWf c1 → PureRes ρ env s c1 cl.k r cr.instrs cr.reg) :
-    OperandsRes ρ env s c k l r cl cr := by
-  rcases hl with ⟨a, c1, el, x1, sim1, wf1, rd1, fr1⟩ | ⟨rc, c1, el, hrc, x1, sim1, wf1, fr1⟩ | el
-  · rcases hr c1 sim1 wf1 with ⟨b, c2, er, x2, sim2, wf2, rd2, fr2⟩ | ⟨rc, c2, er, hrc, x2, sim2, wf2, fr2⟩ | er
-    · refine .inl ⟨a, b, c2, el, er, ?_, sim2, wf2, ?_, rd2, fr1.trans fr2 hk⟩
-      · rw [execInstrs_append_ok _ x1]; exact x2
-      · rw [fr2.readReg env cl.reg hreg]; exact rd1
-    · refine .inr (.inl ⟨rc, c2, .inr ⟨a, el, er⟩, hrc, ?_, sim2, wf2, fr1.trans fr2 hk⟩)
-      rw [execInstrs_append_ok _ x1]; exact x2
-    · exact .inr (.inr (.inr ⟨a, el, er⟩))
-  · exact .inr (.inl ⟨rc, c1, .inl el, hrc, execInstrs_append_fault _ x1 hrc, sim1, wf1, fr1⟩)
-  · exact .inr (.inr (.inl el))
-
-/-- an operator node whose last instruction writes an arbitrary register `t` -/
-def NodeRes (ρ : Rho) (env : Env) (s : Sem.SrcState) (c : Conn) (k : Nat) (e : Expr) (is : List VInstr)
-    (t : VReg) : Prop :=
-  (∃ v c', Sem.evalE env s e = .ok s v ∧ execInstrs env c is = (writeReg env c' v t, 0) ∧ Sim ρ s c' ∧
-      RegsWf c' ∧ TmpFrame k c c') ∨
-  (∃ rc c', Sem.evalE env s e = .fault s rc ∧ rc < 0 ∧ execInstrs env c is = (c', rc) ∧ Sim ρ s c' ∧
-      RegsWf c' ∧ TmpFrame k c c') ∨
-  Sem.evalE env s e = .outside
-
-theorem alu_and (a b : Val) (ha : a = 0 ∨ a = 1) (hb : b = 0 ∨ b = 1) :
-    alu 12 a b = (some (if a != 0 && b != 0 then 1 else 0), 0) := by
-  rcases ha with rfl | rfl <;> rcases hb with rfl | rfl <;> decide
-
-theorem alu_or (a b : Val) (ha : a = 0 ∨ a = 1) (hb : b = 0 ∨ b = 1) (hab : ¬ (a = 1 ∧ b = 1)) :
-    alu 0 a b = (some (if a != 0 || b != 0 then 1 else 0), 0) := by
-  rcases ha with rfl | rfl <;> rcases hb with rfl | rfl <;> first | decide | exact absurd ⟨rfl, rfl⟩ hab
-
-theorem node_res {ρ : Rho} {env : Env} {s : Sem.SrcState} {c : Conn} {k : Nat} {o : Op} {code : Nat}
-    {l r : Expr} {cl cr : LE} (t : VReg) (ho : pureOpcode o = some code)
-    (h : OperandsRes ρ env s c k l r cl cr) :
-    NodeRes ρ env s c k (.sexp o l r) (cl.instrs ++ cr.instrs ++ [⟨code, t, cl.reg, cr.reg⟩]) t := by
-  rcases h with ⟨a, b, c', el, er, x, sim, wf, ra, rb, fr⟩ | ⟨rc, c', hev, hrc, x, sim, wf, fr⟩ | hev
-  · have hstep := execInstr_alu env c' t cl.reg cr.reg (pureOpcode_alu ho)
-    rw [ra, rb] at hstep
-    rcases pureOpcode_cases ho with ⟨rfl, rfl⟩ | ⟨rfl, rfl⟩ | ⟨hc, h99, _, _⟩
-    · rw [NodeRes, evalE_and_ok el er]
-      by_cases hcond : ((a == 0 || a == 1) && (b == 0 || b == 1)) = true
-      · rw [if_pos hcond]
-        simp only [Bool.and_eq_true, Bool.or_eq_true, beq_iff_eq] at hcond
-        rw [alu_and a b hcond.1 hcond.2] at hstep
-        exact .inl ⟨_, c', rfl, execInstrs_snoc x hstep (by omega), sim, wf, fr⟩
-      · rw [if_neg hcond]; exact .inr (.inr rfl)
-    · rw [NodeRes, evalE_or_ok el er]
-      by_cases hcond : ((a == 0 || a == 1) && (b == 0 || b == 1) && !(a == 1 && b == 1)) = true
-      · rw [if_pos hcond]
-        simp only [Bool.and_eq_true, Bool.or_eq_true, beq_iff_eq, Bool.not_eq_true', Bool.and_eq_false_iff,
-          beq_eq_false_iff_ne] at hcond
-        rw [alu_or a b hcond.1.1 hcond.1.2 (by intro h; rcases hcond.2 with h' | h' <;> simp [h] at h')] at hstep
-        exact .inl ⟨_, c', rfl, execInstrs_snoc x hstep (by omega), sim, wf, fr⟩
-      · rw [if_neg hcond]; exact .inr (.inr rfl)
-    · rw [NodeRes, evalE_arith_ok h99 el er, hc]
-      cases hal : alu code a b with
-      | mk ov rc =>
-        rw [hal] at hstep
-        cases ov with
-        | some v => exact .inl ⟨v, c', rfl, execInstrs_snoc x hstep (by omega), sim, wf, fr⟩
-        | none =>
-          have hneg := alu_none_neg (pureOpcode_alu ho) hal
-          exact .inr (.inl ⟨rc, c', rfl, hneg, execInstrs_snoc x hstep (by omega), sim, wf, fr⟩)
-  · refine .inr (.inl ⟨rc, c', ?_, hrc, execInstrs_append_fault _ x hrc, sim, wf, fr⟩)
-    rcases hev with el | ⟨a, el, er⟩
-    · exact evalE_op_left r ho el (by intro _ _ h; cases h)
-    · exact evalE_op_right ho el er (by intro _ _ h; cases h)
-  · refine .inr (.inr ?_)
-    rcases hev with el | ⟨a, el, er⟩
-    · exact evalE_op_left r ho el (by intro _ _ h; cases h)
-    · exact evalE_op_right ho el er (by intro _ _ h; cases h)
-
-
-theorem TmpsOk.append {a b : List VInstr} (h : TmpsOk (a ++ b)) : TmpsOk a ∧ TmpsOk b :=
-  ⟨fun i hi => h i (List.mem_append_left _ hi), fun i hi => h i (List.mem_append_right _ hi)⟩
-
-theorem TmpsOk.nil : TmpsOk [] := fun _ h => by cases h
-
-theorem readReg_immNum (env : Env) (c : Conn) (n : Nat) (h : litsOkE (.atom (.num n)) = true) :
-    readReg env c (vImmNum n) = Sem.immVal n := by
-  simp only [litsOkE, Bool.or_eq_true, decide_eq_true_eq] at h
-  rcases h with h | rfl
-  · have h1 : n % 2 ^ 32 = n := Nat.mod_eq_of_lt (by omega)
-    have h2 : n ≠ 2 ^ 64 - 1 := by omega
-    simp only [vImmNum, readReg, Sem.immVal, h1, h2, if_false]
-  · show UInt64.ofNat ((2 ^ 64 - 1) % 2 ^ 32) = Sem.immVal (2 ^ 64 - 1)
-    decide
-
-theorem readReg_immBool (env : Env) (c : Conn) (b : Bool) :
-    readReg env c (vImmBool b) = if b then 1 else 0 := by
-  cases b <;> rfl
-
-theorem pureE_sexpL {o : Op} {l r : Expr} (h : pureE (.sexp o l r) = true) : pureE l = true ∧ pureE r = true := by
-  simp only [pureE, Bool.and_eq_true] at h
-  exact ⟨h.1.2, h.2⟩
-
-theorem litsOkE_sexp {o : Op} {l r : Expr} (h : litsOkE (.sexp o l r) = true) : litsOkE l = true ∧ litsOkE r = true := by
-  simpa only [litsOkE, Bool.and_eq_true] using h
-
-/-- stage 1 in disjunctive form -/
-theorem lowerE_res {ρ : Rho} {decls : List Sem.VarDecl} (hρ : RhoOk ρ decls) :
-    ∀ (e : Expr), pureE e = true → litsOkE e = true → ∀ (k : Nat) (le : LE) (env : Env) (s : Sem.SrcState)
-      (c : Conn), lowerE ρ e k = some le → Sim ρ s c → RegsWf c → TmpsOk le.instrs →
-      (le.reg.cls = 7 → le.reg.idx < 8) → PureRes ρ env s c k e le.instrs le.reg := by
-  intro e
-  induction e with
-  | cmd _ => intro hp; simp [pureE] at hp
-  | none => intro hp; simp [pureE] at hp
-  | atom p =>
-    intro _ hlit k le env s c hle sim wf _ _
-    cases p with
-    | bool b =>
-      simp only [lowerE, Option.some.injEq] at hle; subst hle
-      exact .inl ⟨_, c, rfl, rfl, sim, wf, readReg_immBool env c b, TmpFrame.refl _ _⟩
-    | num n =>
-      simp only [lowerE, Option.some.injEq] at hle; subst hle
-      exact .inl ⟨_, c, rfl, rfl, sim, wf, readReg_immNum env c n hlit, TmpFrame.refl _ _⟩
-    | name x =>
-      simp only [lowerE, Option.map_eq_some_iff] at hle
-      obtain ⟨r, hr, rfl⟩ := hle
-      exact .inl ⟨_, c, rfl, rfl, sim, wf, sim.1 env x r hr, TmpFrame.refl _ _⟩
-  | sexp o l r ihl ihr =>
-    intro hp hlit k le env s c hle sim wf ht hreg
-    obtain ⟨code, cl, cr, ho, hl, hr, rfl⟩ := lowerE_sexp_inv hle
-    obtain ⟨hpl, hpr⟩ := pureE_sexpL hp
-    obtain ⟨hll, hlr⟩ := litsOkE_sexp hlit
-    obtain ⟨sl1, sl2, _⟩ := lowerE_shape hρ l k cl hl
-    obtain ⟨sr1, _, _⟩ := lowerE_shape hρ r cl.k cr hr
-    obtain ⟨ht12, ht3⟩ := TmpsOk.append ht
-    obtain ⟨ht1, ht2⟩ := TmpsOk.append ht12
-    obtain ⟨_, hlt, hrt⟩ := ht3 _ (List.mem_singleton.mpr rfl)
-    have hk8 : cr.k < 8 := hreg rfl
-    have hops := operands_res (env := env) sl1 (fun h => (sl2 h).2)
-      (ihl hpl hll k cl env s c hl sim wf ht1 hlt)
-      (fun c1 sim1 wf1 => ihr hpr hlr cl.k cr env s c1 hr sim1 wf1 ht2 hrt)
-    rcases node_res (vTmp cr.k) ho hops with ⟨v, c', ev, x, sim', wf', fr⟩ | h | h
-    · have fr2 := TmpFrame.writeTmp env c' v cr.k cr.k (Nat.le_refl _)
-      refine .inl ⟨v, _, ev, x, Sim.frame hρ sim' fr2, writeReg_wf _ _ _ _ wf', ?_, fr.trans fr2 (by omega)⟩
-      exact readReg_writeReg_self _ _ _ _ _ wf' (.inr (.inr (.inr (.inr ⟨rfl, hk8⟩))))
-    · exact .inr (.inl h)
-    · exact .inr (.inr h)
-
-/-- **Stage 1.** A lowered pure expression computes its source value into its result register,
-touching only temporaries at or above the entry counter (`TmpFrame k c c'`: every other file, the
-clock origin and the other `Conn` fields are unchanged, temporaries below `k` keep their values);
-faults coincide (same code, negative). The first conjunct is the syntactic part (counter grows, result
-temporary and all written temporaries lie in `[k, le.k)`, only ALU opcodes).
-
-Corrected statement: the hypothesis `RegsWf c` (and the conclusion `RegsWf c'`) is new. Without it the
-statement is false: `stage1_needs_RegsWf` in `LowerSem2.lean`. -/
-theorem lowerE_correct {ρ : Rho} {decls : List Sem.VarDecl} (hρ : RhoOk ρ decls)
-    (e : Expr) (hp : pureE e = true) (hlit : litsOkE e = true) (k : Nat) (le : LE)
-    (hle : lowerE ρ e k = some le) (env : Env) (s : Sem.SrcState) (c : Conn)
-    (hsim : Sim ρ s c) (hwf : RegsWf c) (ht : TmpsOk le.instrs) (hreg : le.reg.cls = 7 → le.reg.idx < 8) :
-    (k ≤ le.k ∧ (le.reg.cls = 7 → k ≤ le.reg.idx ∧ le.reg.idx < le.k) ∧
-      ∀ i ∈ le.instrs, i.ret.cls = 7 ∧ k ≤ i.ret.idx ∧ i.ret.idx < le.k ∧ AluOp i.op) ∧
-    match Sem.evalE env s e with
-    | .ok s' v => s' = s ∧ ∃ c', execInstrs env c le.instrs = (c', 0) ∧ Sim ρ s c' ∧ RegsWf c' ∧
-        readReg env c' le.reg = v ∧ TmpFrame k c c'
-    | .fault s' rc => s' = s ∧ rc < 0 ∧ ∃ c', execInstrs env c le.instrs = (c', rc) ∧ Sim ρ s c' ∧
-        RegsWf c' ∧ TmpFrame k c c'
-    | .outside => True
-    | .notDenoted => False := by
-  refine ⟨lowerE_shape hρ e k le hle, ?_⟩
-  rcases lowerE_res hρ e hp hlit k le env s c hle hsim hwf ht hreg with
-    ⟨v, c', ev, x, sim', wf', rd, fr⟩ | ⟨rc, c', ev, hrc, x, sim', wf', fr⟩ | ev
-  · rw [ev]; exact ⟨rfl, c', x, sim', wf', rd, fr⟩
-  · rw [ev]; exact ⟨rfl, hrc, c', x, sim', wf', fr⟩
-  · rw [ev]; trivial
-
-
-
 /-! ## variables by name: get/set algebra -/
 
 theorem lookupVar_cons (a : Name × Val) (vs : List (Name × Val)) (x : Name) :
@@ -739,6 +505,599 @@ theorem write_sim {ρ : Rho} {decls : List Sem.VarDecl} (hρ : RhoOk ρ decls) {
       exact hm (hρ.inj x "Micros".toList r ⟨2, 3⟩ hx (hρ.impls 3 (by decide)) ⟨by rw [h2], h3⟩)
 
 
+/-! ## stage 1: value expressions (pure expressions, plus hazard-free nested binds) -/
+
+/-- an assignment step on both sides -/
+theorem write_step {ρ : Rho} {decls : List Sem.VarDecl} (hρ : RhoOk ρ decls) {x : Name} {tx : VReg}
+    (hx : ρ x = some tx) (hp : Sem.primIndex x = none) (env : Env) {s : Sem.SrcState} {c : Conn}
+    (sim : Sim ρ s c) (wf : RegsWf c) (v : Val) :
+    ∃ s3, Sem.write env s x v = some s3 ∧ Sim ρ s3 (writeReg env c v tx) ∧ RegsWf (writeReg env c v tx) ∧
+      (x ≠ "__eventFlag".toList → s3.ev = s.ev) := by
+  obtain ⟨s3, hw⟩ := write_isSome env s x v hp
+  exact ⟨s3, hw, write_sim hρ hx hw sim wf, writeReg_wf _ _ _ _ wf, write_ev hw⟩
+
+/-! ### frames: an instruction writes at most its result register -/
+
+theorem execInstr_read_other (env env' : Env) (c : Conn) (i : VInstr) (reg : VReg) (h : ¬ sameCell i.ret reg) :
+    readReg env' (execInstr env c i).1 reg = readReg env' c reg := by
+  unfold execInstr
+  dsimp only
+  split <;> (try split) <;> first | rfl | exact readReg_writeReg_ne _ _ _ _ _ _ h
+
+/-- running code leaves every register alone that is not the result register of one of its instructions -/
+theorem execInstrs_read_other (env env' : Env) (reg : VReg) :
+    ∀ (is : List VInstr) (c : Conn), (∀ i ∈ is, ¬ sameCell i.ret reg) →
+      readReg env' (execInstrs env c is).1 reg = readReg env' c reg
+  | [], c, _ => rfl
+  | i :: is, c, h => by
+    unfold execInstrs
+    simp only
+    split
+    · exact execInstr_read_other env env' c i reg (h i List.mem_cons_self)
+    · rw [execInstrs_read_other env env' reg is _ (fun j hj => h j (List.mem_cons_of_mem _ hj))]
+      exact execInstr_read_other env env' c i reg (h i List.mem_cons_self)
+
+theorem execInstr_tmpFrame (env : Env) (c : Conn) (i : VInstr) (k : Nat) (h : i.ret.cls = 7 ∧ k ≤ i.ret.idx) :
+    TmpFrame k c (execInstr env c i).1 := by
+  have e : i.ret = vTmp i.ret.idx := by
+    unfold vTmp
+    rw [← h.1]
+  unfold execInstr
+  dsimp only
+  split <;> (try split) <;> first
+    | exact TmpFrame.refl _ _
+    | (rw [e]; exact TmpFrame.writeTmp env c _ k _ h.2)
+
+/-- code that writes only temporaries at or above `k` changes nothing else (the frame of a *pure* expression) -/
+theorem execInstrs_tmpFrame (env : Env) (k : Nat) :
+    ∀ (is : List VInstr) (c : Conn), (∀ i ∈ is, i.ret.cls = 7 ∧ k ≤ i.ret.idx) →
+      TmpFrame k c (execInstrs env c is).1
+  | [], c, _ => TmpFrame.refl _ _
+  | i :: is, c, h => by
+    unfold execInstrs
+    simp only
+    split
+    · exact execInstr_tmpFrame env c i k (h i List.mem_cons_self)
+    · exact (execInstr_tmpFrame env c i k (h i List.mem_cons_self)).trans
+        (execInstrs_tmpFrame env k is _ (fun j hj => h j (List.mem_cons_of_mem _ hj))) (Nat.le_refl _)
+
+/-! ### the syntactic shape of lowered code -/
+
+/-- what an instruction of lowered code writes: a temporary allocated by this call (the result of an ALU
+instruction), or — the instruction is a `bind` — the register of a variable the expression assigns -/
+def InstrShape (ρ : Rho) (W : List Name) (k k' : Nat) (i : VInstr) : Prop :=
+  (i.ret.cls = 7 ∧ k ≤ i.ret.idx ∧ i.ret.idx < k' ∧ AluOp i.op) ∨
+  (i.op = 1 ∧ ∃ x ∈ W, ρ x = some i.ret)
+
+theorem InstrShape.mono {ρ : Rho} {W W' : List Name} {k k' j j' : Nat} {i : VInstr}
+    (h : InstrShape ρ W k k' i) (hW : ∀ x ∈ W, x ∈ W') (hj : j ≤ k) (hj' : k' ≤ j') : InstrShape ρ W' j j' i := by
+  rcases h with ⟨h1, h2, h3, h4⟩ | ⟨h1, x, hx, h2⟩
+  · exact .inl ⟨h1, by omega, by omega, h4⟩
+  · exact .inr ⟨h1, x, hW x hx, h2⟩
+
+theorem InstrShape.op_ne2 {ρ : Rho} {W : List Name} {k k' : Nat} {i : VInstr} (h : InstrShape ρ W k k' i) :
+    i.op ≠ 2 := by
+  rcases h with ⟨_, _, _, h4⟩ | ⟨h1, _⟩
+  · unfold AluOp at h4; omega
+  · omega
+
+/-- the syntactic shape of lowered code: the counter grows, the result register (if a temporary) is a
+temporary allocated by this call, and every instruction is an ALU instruction into such a temporary or
+the `bind` of a nested assignment to its variable's register -/
+theorem lowerE_shape {ρ : Rho} {decls : List Sem.VarDecl} (hρ : RhoOk ρ decls) :
+    ∀ (e : Expr) (k : Nat) (le : LE), lowerE ρ e k = some le →
+      k ≤ le.k ∧ (le.reg.cls = 7 → k ≤ le.reg.idx ∧ le.reg.idx < le.k) ∧
+      ∀ i ∈ le.instrs, InstrShape ρ (writesIn e) k le.k i := by
+  intro e
+  induction e with
+  | atom p =>
+    intro k le h
+    cases p with
+    | bool b => simp only [lowerE, Option.some.injEq] at h; subst h; simp [vImmBool]
+    | num n => simp only [lowerE, Option.some.injEq] at h; subst h; simp [vImmNum]
+    | name x =>
+      simp only [lowerE, Option.map_eq_some_iff] at h
+      obtain ⟨r, hr, rfl⟩ := h
+      have := rho_not_tmp hρ hr
+      simp [this]
+  | cmd c => intro k le h; simp [lowerE] at h
+  | none => intro k le h; simp [lowerE] at h
+  | sexp o l r ihl ihr =>
+    intro k le h
+    rcases lowerE_sexp_cases h with ⟨x, rx, cr, rfl, rfl, hx, hr, rfl⟩ | ⟨code, cl, cr, ho, hl, hr, rfl⟩
+    · obtain ⟨r1, _, r3⟩ := ihr k cr hr
+      refine ⟨r1, fun h7 => absurd h7 (rho_not_tmp hρ hx), ?_⟩
+      intro i hi
+      simp only [List.mem_append, List.mem_singleton] at hi
+      rcases hi with hi | rfl
+      · exact (r3 i hi).mono (fun y hy => by rw [writesIn]; exact List.mem_cons_of_mem _ hy)
+          (Nat.le_refl _) (Nat.le_refl _)
+      · exact .inr ⟨rfl, x, by rw [writesIn]; exact List.mem_cons_self, hx⟩
+    · obtain ⟨l1, l2, l3⟩ := ihl k cl hl
+      obtain ⟨r1, r2, r3⟩ := ihr cl.k cr hr
+      refine ⟨by simp only; omega, fun _ => by simp only [vTmp]; omega, ?_⟩
+      intro i hi
+      simp only [List.mem_append, List.mem_singleton] at hi
+      rw [writesIn_op ho]
+      rcases hi with (hi | hi) | rfl
+      · exact (l3 i hi).mono (fun y hy => List.mem_append_left _ hy) (Nat.le_refl _) (by simp only; omega)
+      · exact (r3 i hi).mono (fun y hy => List.mem_append_right _ hy) l1 (by simp only; omega)
+      · exact .inl ⟨rfl, by simp only [vTmp]; omega, by simp only [vTmp]; omega, pureOpcode_alu ho⟩
+
+/-- on a pure expression every instruction is an ALU instruction into a temporary allocated by the call
+(the statement of `lowerE_shape` before nested binds were admitted) -/
+theorem lowerE_shape_pure {ρ : Rho} {decls : List Sem.VarDecl} (hρ : RhoOk ρ decls) {e : Expr}
+    (hp : pureE e = true) {k : Nat} {le : LE} (h : lowerE ρ e k = some le) :
+    ∀ i ∈ le.instrs, i.ret.cls = 7 ∧ k ≤ i.ret.idx ∧ i.ret.idx < le.k ∧ AluOp i.op := by
+  intro i hi
+  rcases (lowerE_shape hρ e k le h).2.2 i hi with h1 | ⟨_, x, hx, _⟩
+  · exact h1
+  · rw [writesIn_pure hp] at hx; cases hx
+
+theorem rho_not_imm {ρ : Rho} {decls : List Sem.VarDecl} (hρ : RhoOk ρ decls) {x : Name} {r : VReg}
+    (h : ρ x = some r) : r.cls ≠ 1 := by
+  rcases rho_cases hρ h with ⟨i, hi, _, rfl⟩ | ⟨i, hi, _, rfl⟩ | ⟨_, hv⟩
+  · simp
+  · simp
+  · unfold VarCell at hv; omega
+
+/-- the result register of lowered code: an immediate, a temporary, or the register of the expression's
+result variable -/
+theorem lowerE_reg_cases {ρ : Rho} {e : Expr} {k : Nat} {le : LE} (h : lowerE ρ e k = some le) :
+    le.reg.cls = 1 ∨ le.reg.cls = 7 ∨ ∃ x, resultName e = some x ∧ ρ x = some le.reg := by
+  cases e with
+  | atom p =>
+    cases p with
+    | bool b => simp only [lowerE, Option.some.injEq] at h; subst h; exact .inl rfl
+    | num n => simp only [lowerE, Option.some.injEq] at h; subst h; exact .inl rfl
+    | name x =>
+      simp only [lowerE, Option.map_eq_some_iff] at h
+      obtain ⟨r, hr, rfl⟩ := h
+      exact .inr (.inr ⟨x, rfl, hr⟩)
+  | cmd c => simp [lowerE] at h
+  | none => simp [lowerE] at h
+  | sexp o l r =>
+    rcases lowerE_sexp_cases h with ⟨x, rx, cr, rfl, rfl, hx, hr, rfl⟩ | ⟨code, cl, cr, ho, hl, hr, rfl⟩
+    · exact .inr (.inr ⟨x, rfl, hx⟩)
+    · exact .inr (.inl rfl)
+
+theorem fileOf_eq_of {a b : Nat} (h : fileOf a = fileOf b) (hb : b = 1 ∨ b = 7) : a = b := by
+  have h1 : fileOf b = b := by rcases hb with rfl | rfl <;> rfl
+  rw [h1] at h
+  unfold fileOf at h
+  split at h
+  · omega
+  · split at h
+    · omega
+    · exact h
+
+/-- **hazard freedom.** No instruction of the right operand writes the result register of the left operand:
+a temporary of the left operand lies below the right operand's counter range, an immediate is never written,
+and the register of a named variable is not written because the right operand does not assign that variable
+(`noHazard`; distinct names live in distinct cells) -/
+theorem operand_safe {ρ : Rho} {decls : List Sem.VarDecl} (hρ : RhoOk ρ decls) {l r : Expr} {k : Nat} {cl : LE}
+    (hl : lowerE ρ l k = some cl) (hz : noHazard l r = true) {kr kr' : Nat} {i : VInstr}
+    (hi : InstrShape ρ (writesIn r) kr kr' i) (hk : cl.reg.cls = 7 → cl.reg.idx < kr) :
+    ¬ sameCell i.ret cl.reg := by
+  rintro ⟨hf, hidx⟩
+  rcases hi with ⟨h7, hlo, _, _⟩ | ⟨_, y, hy, hρy⟩
+  · have h7' : cl.reg.cls = 7 := by
+      rcases lowerE_reg_cases hl with h1 | h | ⟨x, _, hx⟩
+      · rw [h1] at hf; exact absurd (fileOf_eq_of hf (.inl rfl)) (by omega)
+      · exact h
+      · have := rho_not_tmp hρ hx
+        rw [h7] at hf
+        exact absurd (fileOf_eq_of hf.symm (.inr rfl)) this
+    have := hk h7'
+    omega
+  · rcases lowerE_reg_cases hl with h1 | h7 | ⟨x, hrn, hx⟩
+    · rw [h1] at hf
+      exact rho_not_imm hρ hρy (fileOf_eq_of hf (.inl rfl))
+    · rw [h7] at hf
+      exact rho_not_tmp hρ hρy (fileOf_eq_of hf (.inr rfl))
+    · have hyx : y = x := hρ.inj y x _ _ hρy hx ⟨hf, hidx⟩
+      subst hyx
+      unfold noHazard at hz
+      rw [hrn] at hz
+      simp only [Bool.not_eq_true', List.contains_eq_mem, decide_eq_false_iff_not] at hz
+      exact hz hy
+
+/-- every variable a value expression assigns is an ordinary variable: not a primitive (the assignment is
+denoted), not an implicit register — in particular not `__eventFlag` (`WritesOk` therefore constrains only the
+targets of *statements*; the nested targets are constrained by `valueE`, i.e. by `InOracle`) -/
+theorem valueE_writes {e : Expr} (h : valueE e = true) : ∀ y ∈ writesIn e, isBuiltinName y = false := by
+  induction e with
+  | atom p => intro y hy; simp [writesIn] at hy
+  | cmd c => simp [valueE] at h
+  | none => simp [valueE] at h
+  | sexp o l r ihl ihr =>
+    rcases valueE_sexp_cases h with ⟨x, rfl, rfl, hnb, hvr⟩ | ⟨code, ho, hvl, hvr, _⟩
+    · intro y hy
+      rw [writesIn] at hy
+      rcases List.mem_cons.mp hy with rfl | hy
+      · exact hnb
+      · exact ihr hvr y hy
+    · intro y hy
+      rw [writesIn_op ho] at hy
+      rcases List.mem_append.mp hy with hy | hy
+      · exact ihl hvl y hy
+      · exact ihr hvr y hy
+
+theorem valueE_writes_ok {e : Expr} (h : valueE e = true) :
+    ∀ y ∈ writesIn e, Sem.primIndex y = none ∧ y ≠ "__eventFlag".toList := by
+  intro y hy
+  obtain ⟨_, _, _, h4, _, _, h7⟩ := nonbuiltin_facts (valueE_writes h y hy)
+  exact ⟨h7, h4⟩
+
+/-! ### execution against evaluation -/
+
+/-- the outcome of running lowered code `is` (result register `reg`) against the source evaluation of `e`, as a
+disjunction. Evaluation may change the source state (nested assignments): the machine state reached
+represents the source state reached — after a fault too (the state then holds the assignments made before it) —
+and the result register holds the value *after* the whole expression has run. Nested assignments never touch
+the event flag. -/
+def ValRes (ρ : Rho) (env : Env) (s : Sem.SrcState) (c : Conn) (e : Expr) (is : List VInstr)
+    (reg : VReg) : Prop :=
+  (∃ s' v c', Sem.evalE env s e = .ok s' v ∧ execInstrs env c is = (c', 0) ∧ Sim ρ s' c' ∧ RegsWf c' ∧
+      readReg env c' reg = v ∧ s'.ev = s.ev) ∨
+  (∃ s' rc c', Sem.evalE env s e = .fault s' rc ∧ rc < 0 ∧ execInstrs env c is = (c', rc) ∧ Sim ρ s' c' ∧
+      RegsWf c') ∨
+  Sem.evalE env s e = .outside
+
+/-- both operands of a two-operand construct, the second lowered from the counter where the first stopped -/
+def OperandsRes (ρ : Rho) (env : Env) (s : Sem.SrcState) (c : Conn) (l r : Expr) (cl cr : LE) : Prop :=
+  (∃ s1 s2 a b c', Sem.evalE env s l = .ok s1 a ∧ Sem.evalE env s1 r = .ok s2 b ∧
+      execInstrs env c (cl.instrs ++ cr.instrs) = (c', 0) ∧ Sim ρ s2 c' ∧ RegsWf c' ∧
+      readReg env c' cl.reg = a ∧ readReg env c' cr.reg = b ∧ s2.ev = s.ev) ∨
+  (∃ sf rc c', (Sem.evalE env s l = .fault sf rc ∨
+        ∃ s1 a, Sem.evalE env s l = .ok s1 a ∧ Sem.evalE env s1 r = .fault sf rc) ∧
+      rc < 0 ∧ execInstrs env c (cl.instrs ++ cr.instrs) = (c', rc) ∧ Sim ρ sf c' ∧ RegsWf c') ∨
+  (Sem.evalE env s l = .outside ∨ ∃ s1 a, Sem.evalE env s l = .ok s1 a ∧ Sem.evalE env s1 r = .outside)
+
+/-- `hsafe`: the right operand's code does not write the left operand's result register (`operand_safe`) -/
+theorem operands_res {ρ : Rho} {env : Env} {s : Sem.SrcState} {c : Conn} {l r : Expr} {cl cr : LE}
+    (hsafe : ∀ i ∈ cr.instrs, ¬ sameCell i.ret cl.reg)
+    (hl : ValRes ρ env s c l cl.instrs cl.reg)
+    (hr : ∀ s1 c1, Sim ρ s1 c1 → RegsWf c1 → ValRes ρ env s1 c1 r cr.instrs cr.reg) :
+    OperandsRes ρ env s c l r cl cr := by
+  rcases hl with ⟨s1, a, c1, el, x1, sim1, wf1, rd1, ev1⟩ | ⟨sf, rc, c1, el, hrc, x1, sim1, wf1⟩ | el
+  · rcases hr s1 c1 sim1 wf1 with ⟨s2, b, c2, er, x2, sim2, wf2, rd2, ev2⟩ | ⟨sf, rc, c2, er, hrc, x2, sim2, wf2⟩ | er
+    · refine .inl ⟨s1, s2, a, b, c2, el, er, ?_, sim2, wf2, ?_, rd2, ev2.trans ev1⟩
+      · rw [execInstrs_append_ok _ x1]; exact x2
+      · have := execInstrs_read_other env env cl.reg cr.instrs c1 hsafe
+        rw [x2] at this
+        exact this.trans rd1
+    · refine .inr (.inl ⟨sf, rc, c2, .inr ⟨s1, a, el, er⟩, hrc, ?_, sim2, wf2⟩)
+      rw [execInstrs_append_ok _ x1]; exact x2
+    · exact .inr (.inr (.inr ⟨s1, a, el, er⟩))
+  · exact .inr (.inl ⟨sf, rc, c1, .inl el, hrc, execInstrs_append_fault _ x1 hrc, sim1, wf1⟩)
+  · exact .inr (.inr (.inl el))
+
+/-- an operator node whose last instruction writes an arbitrary register `t` -/
+def NodeRes (ρ : Rho) (env : Env) (s : Sem.SrcState) (c : Conn) (e : Expr) (is : List VInstr)
+    (t : VReg) : Prop :=
+  (∃ s' v c', Sem.evalE env s e = .ok s' v ∧ execInstrs env c is = (writeReg env c' v t, 0) ∧ Sim ρ s' c' ∧
+      RegsWf c' ∧ s'.ev = s.ev) ∨
+  (∃ s' rc c', Sem.evalE env s e = .fault s' rc ∧ rc < 0 ∧ execInstrs env c is = (c', rc) ∧ Sim ρ s' c' ∧
+      RegsWf c') ∨
+  Sem.evalE env s e = .outside
+
+theorem alu_and (a b : Val) (ha : a = 0 ∨ a = 1) (hb : b = 0 ∨ b = 1) :
+    alu 12 a b = (some (if a != 0 && b != 0 then 1 else 0), 0) := by
+  rcases ha with rfl | rfl <;> rcases hb with rfl | rfl <;> decide
+
+theorem alu_or (a b : Val) (ha : a = 0 ∨ a = 1) (hb : b = 0 ∨ b = 1) (hab : ¬ (a = 1 ∧ b = 1)) :
+    alu 0 a b = (some (if a != 0 || b != 0 then 1 else 0), 0) := by
+  rcases ha with rfl | rfl <;> rcases hb with rfl | rfl <;> first | decide | exact absurd ⟨rfl, rfl⟩ hab
+
+theorem node_res {ρ : Rho} {env : Env} {s : Sem.SrcState} {c : Conn} {o : Op} {code : Nat}
+    {l r : Expr} {cl cr : LE} (t : VReg) (ho : pureOpcode o = some code)
+    (h : OperandsRes ρ env s c l r cl cr) :
+    NodeRes ρ env s c (.sexp o l r) (cl.instrs ++ cr.instrs ++ [⟨code, t, cl.reg, cr.reg⟩]) t := by
+  rcases h with ⟨s1, s2, a, b, c', el, er, x, sim, wf, ra, rb, hev⟩ | ⟨sf, rc, c', hev, hrc, x, sim, wf⟩ | hev
+  · have hstep := execInstr_alu env c' t cl.reg cr.reg (pureOpcode_alu ho)
+    rw [ra, rb] at hstep
+    rcases pureOpcode_cases ho with ⟨rfl, rfl⟩ | ⟨rfl, rfl⟩ | ⟨hc, h99, _, _⟩
+    · rw [NodeRes, evalE_and_ok el er]
+      by_cases hcond : ((a == 0 || a == 1) && (b == 0 || b == 1)) = true
+      · rw [if_pos hcond]
+        simp only [Bool.and_eq_true, Bool.or_eq_true, beq_iff_eq] at hcond
+        rw [alu_and a b hcond.1 hcond.2] at hstep
+        exact .inl ⟨s2, _, c', rfl, execInstrs_snoc x hstep (by omega), sim, wf, hev⟩
+      · rw [if_neg hcond]; exact .inr (.inr rfl)
+    · rw [NodeRes, evalE_or_ok el er]
+      by_cases hcond : ((a == 0 || a == 1) && (b == 0 || b == 1) && !(a == 1 && b == 1)) = true
+      · rw [if_pos hcond]
+        simp only [Bool.and_eq_true, Bool.or_eq_true, beq_iff_eq, Bool.not_eq_true', Bool.and_eq_false_iff,
+          beq_eq_false_iff_ne] at hcond
+        rw [alu_or a b hcond.1.1 hcond.1.2 (by intro h; rcases hcond.2 with h' | h' <;> simp [h] at h')] at hstep
+        exact .inl ⟨s2, _, c', rfl, execInstrs_snoc x hstep (by omega), sim, wf, hev⟩
+      · rw [if_neg hcond]; exact .inr (.inr rfl)
+    · rw [NodeRes, evalE_arith_ok h99 el er, hc]
+      cases hal : alu code a b with
+      | mk ov rc =>
+        rw [hal] at hstep
+        cases ov with
+        | some v => exact .inl ⟨s2, v, c', rfl, execInstrs_snoc x hstep (by omega), sim, wf, hev⟩
+        | none =>
+          have hneg := alu_none_neg (pureOpcode_alu ho) hal
+          exact .inr (.inl ⟨s2, rc, c', rfl, hneg, execInstrs_snoc x hstep (by omega), sim, wf⟩)
+  · refine .inr (.inl ⟨sf, rc, c', ?_, hrc, execInstrs_append_fault _ x hrc, sim, wf⟩)
+    rcases hev with el | ⟨s1, a, el, er⟩
+    · exact evalE_op_left r ho el (by intro _ _ h; cases h)
+    · exact evalE_op_right ho el er (by intro _ _ h; cases h)
+  · refine .inr (.inr ?_)
+    rcases hev with el | ⟨s1, a, el, er⟩
+    · exact evalE_op_left r ho el (by intro _ _ h; cases h)
+    · exact evalE_op_right ho el er (by intro _ _ h; cases h)
+
+
+theorem TmpsOk.append {a b : List VInstr} (h : TmpsOk (a ++ b)) : TmpsOk a ∧ TmpsOk b :=
+  ⟨fun i hi => h i (List.mem_append_left _ hi), fun i hi => h i (List.mem_append_right _ hi)⟩
+
+theorem TmpsOk.nil : TmpsOk [] := fun _ h => by cases h
+
+theorem readReg_immNum (env : Env) (c : Conn) (n : Nat) (h : litsOkE (.atom (.num n)) = true) :
+    readReg env c (vImmNum n) = Sem.immVal n := by
+  simp only [litsOkE, Bool.or_eq_true, decide_eq_true_eq] at h
+  rcases h with h | rfl
+  · have h1 : n % 2 ^ 32 = n := Nat.mod_eq_of_lt (by omega)
+    have h2 : n ≠ 2 ^ 64 - 1 := by omega
+    simp only [vImmNum, readReg, Sem.immVal, h1, h2, if_false]
+  · show UInt64.ofNat ((2 ^ 64 - 1) % 2 ^ 32) = Sem.immVal (2 ^ 64 - 1)
+    decide
+
+theorem readReg_immBool (env : Env) (c : Conn) (b : Bool) :
+    readReg env c (vImmBool b) = if b then 1 else 0 := by
+  cases b <;> rfl
+
+theorem pureE_sexpL {o : Op} {l r : Expr} (h : pureE (.sexp o l r) = true) : pureE l = true ∧ pureE r = true := by
+  simp only [pureE, Bool.and_eq_true] at h
+  exact ⟨h.1.2, h.2⟩
+
+theorem pureE_sexp_op {o : Op} {l r : Expr} (h : pureE (.sexp o l r) = true) : ∃ code, pureOpcode o = some code := by
+  simp only [pureE, Bool.and_eq_true] at h
+  obtain ⟨⟨h1, -⟩, -⟩ := h
+  cases o <;> first | exact ⟨_, rfl⟩ | cases h1
+
+theorem litsOkE_sexp {o : Op} {l r : Expr} (h : litsOkE (.sexp o l r) = true) : litsOkE l = true ∧ litsOkE r = true := by
+  simpa only [litsOkE, Bool.and_eq_true] using h
+
+theorem evalE_bind_ok {env : Env} {s s1 : Sem.SrcState} {x : Name} {e : Expr} {v : Val}
+    (hp : valueE e = true) (he : Sem.evalE env s e = .ok s1 v) :
+    Sem.evalE env s (.sexp .bind (.atom (.name x)) e) =
+      match Sem.write env s1 x v with
+      | some s2 => .ok s2 v
+      | none => .notDenoted := by
+  obtain ⟨h1, h2, h3⟩ := valueE_not_cond hp
+  rw [Sem.evalE.eq_7 env s x e h1 h2 h3, he]
+  rfl
+
+theorem evalE_bind_not_ok {env : Env} {s : Sem.SrcState} {x : Name} {e : Expr} {res : Sem.Res}
+    (hp : valueE e = true) (he : Sem.evalE env s e = res) (hx : ∀ s' v, res ≠ .ok s' v) :
+    Sem.evalE env s (.sexp .bind (.atom (.name x)) e) = res := by
+  obtain ⟨h1, h2, h3⟩ := valueE_not_cond hp
+  rw [Sem.evalE.eq_7 env s x e h1 h2 h3, he]
+  cases res <;> first | rfl | exact absurd rfl (hx _ _)
+
+/-- stage 1 in disjunctive form -/
+theorem lowerE_res {ρ : Rho} {decls : List Sem.VarDecl} (hρ : RhoOk ρ decls) :
+    ∀ (e : Expr), valueE e = true → litsOkE e = true → ∀ (k : Nat) (le : LE) (env : Env) (s : Sem.SrcState)
+      (c : Conn), lowerE ρ e k = some le → Sim ρ s c → RegsWf c → TmpsOk le.instrs →
+      (le.reg.cls = 7 → le.reg.idx < 8) → ValRes ρ env s c e le.instrs le.reg := by
+  intro e
+  induction e with
+  | cmd _ => intro hp; simp [valueE] at hp
+  | none => intro hp; simp [valueE] at hp
+  | atom p =>
+    intro _ hlit k le env s c hle sim wf _ _
+    cases p with
+    | bool b =>
+      simp only [lowerE, Option.some.injEq] at hle; subst hle
+      exact .inl ⟨s, _, c, rfl, rfl, sim, wf, readReg_immBool env c b, rfl⟩
+    | num n =>
+      simp only [lowerE, Option.some.injEq] at hle; subst hle
+      exact .inl ⟨s, _, c, rfl, rfl, sim, wf, readReg_immNum env c n hlit, rfl⟩
+    | name x =>
+      simp only [lowerE, Option.map_eq_some_iff] at hle
+      obtain ⟨r, hr, rfl⟩ := hle
+      exact .inl ⟨s, _, c, rfl, rfl, sim, wf, sim.1 env x r hr, rfl⟩
+  | sexp o l r ihl ihr =>
+    intro hp hlit k le env s c hle sim wf ht hreg
+    obtain ⟨hll, hlr⟩ := litsOkE_sexp hlit
+    rcases valueE_sexp_cases hp with ⟨x, rfl, rfl, hnb, hvr⟩ | ⟨code, ho, hvl, hvr, hz⟩
+    · -- a nested assignment `(:= x r)`: run `r`, bind its result to the register of `x`, which is the result
+      obtain ⟨rx, cr, hx, hr, rfl⟩ := lowerE_bind_inv hle
+      obtain ⟨ht1, ht2⟩ := TmpsOk.append ht
+      obtain ⟨_, _, hrt⟩ := ht2 _ (List.mem_singleton.mpr rfl)
+      obtain ⟨n1, n2, n3, n4, n5, n6, hprim⟩ := nonbuiltin_facts hnb
+      rcases ihr hvr hlr k cr env s c hr sim wf ht1 hrt with
+        ⟨s1, v, c1, ev, x1, sim1, wf1, rd, hev⟩ | ⟨sf, rc, c1, ev, hrc, x1, sim1, wf1⟩ | ev
+      · have hstep : execInstr env c1 ⟨1, rx, rx, cr.reg⟩ = (writeReg env c1 v rx, 0) := by
+          simp only [execInstr, rd]
+        obtain ⟨s3, hw3, sim3, wf3, hev3⟩ := write_step hρ hx hprim env sim1 wf1 v
+        have hcell : CellOk rx := (hρ.vars x rx hx hnb).elim (fun h => .inl h)
+          (fun h => h.elim (fun h => .inr (.inl h)) (fun h => .inr (.inr (.inl h))))
+        rw [ValRes, evalE_bind_ok hvr ev, hw3]
+        exact .inl ⟨s3, v, _, rfl, execInstrs_snoc x1 hstep (by omega), sim3, wf3,
+          readReg_writeReg_self _ _ _ _ _ wf1 hcell, (hev3 n4).trans hev⟩
+      · exact .inr (.inl ⟨sf, rc, c1, evalE_bind_not_ok hvr ev (by intro _ _ h; cases h), hrc,
+          execInstrs_append_fault _ x1 hrc, sim1, wf1⟩)
+      · exact .inr (.inr (evalE_bind_not_ok hvr ev (by intro _ _ h; cases h)))
+    · -- an operator node
+      obtain ⟨cl, cr, hl, hr, rfl⟩ := lowerE_sexp_inv ho hle
+      obtain ⟨sl1, sl2, _⟩ := lowerE_shape hρ l k cl hl
+      obtain ⟨sr1, _, sr3⟩ := lowerE_shape hρ r cl.k cr hr
+      obtain ⟨ht12, ht3⟩ := TmpsOk.append ht
+      obtain ⟨ht1, ht2⟩ := TmpsOk.append ht12
+      obtain ⟨_, hlt, hrt⟩ := ht3 _ (List.mem_singleton.mpr rfl)
+      have hk8 : cr.k < 8 := hreg rfl
+      have hops := operands_res (env := env)
+        (fun i hi => operand_safe hρ hl hz (sr3 i hi) (fun h => (sl2 h).2))
+        (ihl hvl hll k cl env s c hl sim wf ht1 hlt)
+        (fun s1 c1 sim1 wf1 => ihr hvr hlr cl.k cr env s1 c1 hr sim1 wf1 ht2 hrt)
+      rcases node_res (vTmp cr.k) ho hops with ⟨s', v, c', ev, x, sim', wf', hev⟩ | h | h
+      · have fr2 := TmpFrame.writeTmp env c' v cr.k cr.k (Nat.le_refl _)
+        refine .inl ⟨s', v, _, ev, x, Sim.frame hρ sim' fr2, writeReg_wf _ _ _ _ wf', ?_, hev⟩
+        exact readReg_writeReg_self _ _ _ _ _ wf' (.inr (.inr (.inr (.inr ⟨rfl, hk8⟩))))
+      · exact .inr (.inl h)
+      · exact .inr (.inr h)
+
+/-- the outcome carries the state `s` (if it carries a state) -/
+def KeepsState (s : Sem.SrcState) (res : Sem.Res) : Prop :=
+  (∀ s' v, res = .ok s' v → s' = s) ∧ (∀ s' rc, res = .fault s' rc → s' = s)
+
+theorem KeepsState.ok (s : Sem.SrcState) (v : Val) : KeepsState s (.ok s v) :=
+  ⟨fun _ _ h => (by cases h; rfl), fun _ _ h => (by cases h)⟩
+
+theorem KeepsState.fault (s : Sem.SrcState) (rc : Int) : KeepsState s (.fault s rc) :=
+  ⟨fun _ _ h => (by cases h), fun _ _ h => (by cases h; rfl)⟩
+
+theorem KeepsState.outside (s : Sem.SrcState) : KeepsState s .outside :=
+  ⟨fun _ _ h => (by cases h), fun _ _ h => (by cases h)⟩
+
+theorem KeepsState.notDenoted (s : Sem.SrcState) : KeepsState s .notDenoted :=
+  ⟨fun _ _ h => (by cases h), fun _ _ h => (by cases h)⟩
+
+/-- a pure expression does not change the source state, whatever the outcome -/
+theorem evalE_pure_state {env : Env} :
+    ∀ (e : Expr), pureE e = true → ∀ (s : Sem.SrcState), KeepsState s (Sem.evalE env s e) := by
+  intro e
+  induction e with
+  | cmd _ => intro hp; simp [pureE] at hp
+  | none => intro hp; simp [pureE] at hp
+  | atom p =>
+    intro _ s
+    cases p <;> simp only [Sem.evalE] <;> exact KeepsState.ok _ _
+  | sexp o l r ihl ihr =>
+    intro hp s
+    obtain ⟨hpl, hpr⟩ := pureE_sexpL hp
+    obtain ⟨code, ho⟩ := pureE_sexp_op hp
+    cases el : Sem.evalE env s l with
+    | ok s1 a =>
+      have e1 : s1 = s := (ihl hpl s).1 s1 a el
+      subst e1
+      cases er : Sem.evalE env s1 r with
+      | ok s2 b =>
+        have e2 : s2 = s1 := (ihr hpr s1).1 s2 b er
+        subst e2
+        rcases pureOpcode_cases ho with ⟨rfl, rfl⟩ | ⟨rfl, rfl⟩ | ⟨hc, h99, _, _⟩
+        · rw [evalE_and_ok el er]
+          split
+          · exact KeepsState.ok _ _
+          · exact KeepsState.outside _
+        · rw [evalE_or_ok el er]
+          split
+          · exact KeepsState.ok _ _
+          · exact KeepsState.outside _
+        · rw [evalE_arith_ok h99 el er]
+          split
+          · exact KeepsState.ok _ _
+          · exact KeepsState.fault _ _
+      | fault sf rc =>
+        rw [evalE_op_right ho el er (by intro _ _ h; cases h)]
+        have := (ihr hpr s1).2 _ _ er
+        subst this
+        exact KeepsState.fault _ _
+      | notDenoted =>
+        rw [evalE_op_right ho el er (by intro _ _ h; cases h)]
+        exact KeepsState.notDenoted _
+      | outside =>
+        rw [evalE_op_right ho el er (by intro _ _ h; cases h)]
+        exact KeepsState.outside _
+    | fault sf rc =>
+      rw [evalE_op_left r ho el (by intro _ _ h; cases h)]
+      have := (ihl hpl s).2 _ _ el
+      subst this
+      exact KeepsState.fault _ _
+    | notDenoted =>
+      rw [evalE_op_left r ho el (by intro _ _ h; cases h)]
+      exact KeepsState.notDenoted _
+    | outside =>
+      rw [evalE_op_left r ho el (by intro _ _ h; cases h)]
+      exact KeepsState.outside _
+
+/-- **Stage 1.** A lowered value expression computes its source value into its result register; the machine
+state reached represents the source state reached (nested assignments are performed on both sides), also when
+the expression faults (same code, negative; the states then hold the assignments made before the fault).
+The first conjunct is the syntactic part (counter grows, result temporary in `[k, le.k)`, every instruction an
+ALU instruction into such a temporary or the `bind` of a variable the expression assigns). The last component of
+the two executing cases is the frame: every register that is neither a temporary at or above the entry counter
+nor the cell of an assigned variable reads as before.
+
+Generalised from pure expressions (`pureE`) to `valueE`; for a pure expression `writesIn e = []`, the source
+state is unchanged (`evalE_pure_state`) and the frame is `TmpFrame` (`lowerE_correct_pure`).
+
+Corrected statement (earlier round): the hypothesis `RegsWf c` (and the conclusion `RegsWf c'`). Without it the
+statement is false: `stage1_needs_RegsWf` in `LowerSem2.lean`. -/
+theorem lowerE_correct {ρ : Rho} {decls : List Sem.VarDecl} (hρ : RhoOk ρ decls)
+    (e : Expr) (hp : valueE e = true) (hlit : litsOkE e = true) (k : Nat) (le : LE)
+    (hle : lowerE ρ e k = some le) (env : Env) (s : Sem.SrcState) (c : Conn)
+    (hsim : Sim ρ s c) (hwf : RegsWf c) (ht : TmpsOk le.instrs) (hreg : le.reg.cls = 7 → le.reg.idx < 8) :
+    (k ≤ le.k ∧ (le.reg.cls = 7 → k ≤ le.reg.idx ∧ le.reg.idx < le.k) ∧
+      ∀ i ∈ le.instrs, InstrShape ρ (writesIn e) k le.k i) ∧
+    match Sem.evalE env s e with
+    | .ok s' v => s'.ev = s.ev ∧ ∃ c', execInstrs env c le.instrs = (c', 0) ∧ Sim ρ s' c' ∧ RegsWf c' ∧
+        readReg env c' le.reg = v ∧
+        ∀ env' reg, (reg.cls = 7 → reg.idx < k) → (∀ y ∈ writesIn e, ∀ ry, ρ y = some ry → ¬ sameCell ry reg) →
+          readReg env' c' reg = readReg env' c reg
+    | .fault s' rc => rc < 0 ∧ ∃ c', execInstrs env c le.instrs = (c', rc) ∧ Sim ρ s' c' ∧ RegsWf c' ∧
+        ∀ env' reg, (reg.cls = 7 → reg.idx < k) → (∀ y ∈ writesIn e, ∀ ry, ρ y = some ry → ¬ sameCell ry reg) →
+          readReg env' c' reg = readReg env' c reg
+    | .outside => True
+    | .notDenoted => False := by
+  have hshape := lowerE_shape hρ e k le hle
+  refine ⟨hshape, ?_⟩
+  have frame : ∀ c' rc, execInstrs env c le.instrs = (c', rc) → ∀ env' reg, (reg.cls = 7 → reg.idx < k) →
+      (∀ y ∈ writesIn e, ∀ ry, ρ y = some ry → ¬ sameCell ry reg) → readReg env' c' reg = readReg env' c reg := by
+    intro c' rc hx env' reg h7 hW
+    have := execInstrs_read_other env env' reg le.instrs c ?_
+    · rw [hx] at this; exact this
+    · intro i hi ⟨hf, hidx⟩
+      rcases hshape.2.2 i hi with ⟨i7, ilo, _, _⟩ | ⟨_, y, hy, hρy⟩
+      · have : reg.cls = 7 := by rw [i7] at hf; exact fileOf_eq_of hf.symm (.inr rfl)
+        have := h7 this
+        omega
+      · exact hW y hy _ hρy ⟨hf, hidx⟩
+  rcases lowerE_res hρ e hp hlit k le env s c hle hsim hwf ht hreg with
+    ⟨s', v, c', ev, x, sim', wf', rd, hev⟩ | ⟨s', rc, c', ev, hrc, x, sim', wf'⟩ | ev
+  · rw [ev]; exact ⟨hev, c', x, sim', wf', rd, frame c' 0 x⟩
+  · rw [ev]; exact ⟨hrc, c', x, sim', wf', frame c' rc x⟩
+  · rw [ev]; trivial
+
+/-- **Stage 1 on pure expressions** — the statement as it was before nested binds were admitted: the source
+state does not change, only temporaries at or above the entry counter are touched (`TmpFrame`), every instruction
+is an ALU instruction into such a temporary. -/
+theorem lowerE_correct_pure {ρ : Rho} {decls : List Sem.VarDecl} (hρ : RhoOk ρ decls)
+    (e : Expr) (hp : pureE e = true) (hlit : litsOkE e = true) (k : Nat) (le : LE)
+    (hle : lowerE ρ e k = some le) (env : Env) (s : Sem.SrcState) (c : Conn)
+    (hsim : Sim ρ s c) (hwf : RegsWf c) (ht : TmpsOk le.instrs) (hreg : le.reg.cls = 7 → le.reg.idx < 8) :
+    (k ≤ le.k ∧ (le.reg.cls = 7 → k ≤ le.reg.idx ∧ le.reg.idx < le.k) ∧
+      ∀ i ∈ le.instrs, i.ret.cls = 7 ∧ k ≤ i.ret.idx ∧ i.ret.idx < le.k ∧ AluOp i.op) ∧
+    match Sem.evalE env s e with
+    | .ok s' v => s' = s ∧ ∃ c', execInstrs env c le.instrs = (c', 0) ∧ Sim ρ s c' ∧ RegsWf c' ∧
+        readReg env c' le.reg = v ∧ TmpFrame k c c'
+    | .fault s' rc => s' = s ∧ rc < 0 ∧ ∃ c', execInstrs env c le.instrs = (c', rc) ∧ Sim ρ s c' ∧
+        RegsWf c' ∧ TmpFrame k c c'
+    | .outside => True
+    | .notDenoted => False := by
+  have hshape := lowerE_shape hρ e k le hle
+  have hpure := lowerE_shape_pure hρ hp hle
+  refine ⟨⟨hshape.1, hshape.2.1, hpure⟩, ?_⟩
+  have frame : ∀ c' rc, execInstrs env c le.instrs = (c', rc) → TmpFrame k c c' := by
+    intro c' rc hx
+    have := execInstrs_tmpFrame env k le.instrs c (fun i hi => ⟨(hpure i hi).1, (hpure i hi).2.1⟩)
+    rw [hx] at this; exact this
+  obtain ⟨st1, st2⟩ := evalE_pure_state (env := env) e hp s
+  rcases lowerE_res hρ e (valueE_of_pure hp) hlit k le env s c hle hsim hwf ht hreg with
+    ⟨s', v, c', ev, x, sim', wf', rd, hev⟩ | ⟨s', rc, c', ev, hrc, x, sim', wf'⟩ | ev
+  · have := st1 s' v ev; subst this
+    rw [ev]; exact ⟨rfl, c', x, sim', wf', rd, frame c' 0 x⟩
+  · have := st2 s' rc ev; subst this
+    rw [ev]; exact ⟨rfl, hrc, c', x, sim', wf', frame c' rc x⟩
+  · rw [ev]; trivial
+
+
 /-! ## stage 2: statements -/
 
 /-- the assigned name is not a primitive (the compiler rejects binding to a primitive register) -/
@@ -757,27 +1116,10 @@ theorem pure_not_cond {e : Expr} (hp : pureE e = true) :
     (∀ a v, e = .sexp .ewma a v → False) := by
   refine ⟨?_, ?_, ?_⟩ <;> (intro c v h; subst h; simp [pureE] at hp)
 
-theorem evalE_bind_ok {env : Env} {s s1 : Sem.SrcState} {x : Name} {e : Expr} {v : Val}
-    (hp : pureE e = true) (he : Sem.evalE env s e = .ok s1 v) :
-    Sem.evalE env s (.sexp .bind (.atom (.name x)) e) =
-      match Sem.write env s1 x v with
-      | some s2 => .ok s2 v
-      | none => .notDenoted := by
-  obtain ⟨h1, h2, h3⟩ := pure_not_cond hp
-  rw [Sem.evalE.eq_7 env s x e h1 h2 h3, he]
-  rfl
-
-theorem evalE_bind_not_ok {env : Env} {s : Sem.SrcState} {x : Name} {e : Expr} {res : Sem.Res}
-    (hp : pureE e = true) (he : Sem.evalE env s e = res) (hx : ∀ s' v, res ≠ .ok s' v) :
-    Sem.evalE env s (.sexp .bind (.atom (.name x)) e) = res := by
-  obtain ⟨h1, h2, h3⟩ := pure_not_cond hp
-  rw [Sem.evalE.eq_7 env s x e h1 h2 h3, he]
-  cases res <;> first | rfl | exact absurd rfl (hx _ _)
-
-theorem lowerStmt_bind_inv {ρ : Rho} {x : Name} {e : Expr} {is : List VInstr} (hp : pureE e = true)
+theorem lowerStmt_bind_inv {ρ : Rho} {x : Name} {e : Expr} {is : List VInstr} (hp : valueE e = true)
     (h : lowerStmt ρ (.sexp .bind (.atom (.name x)) e) = some is) :
     ∃ tx ce, ρ x = some tx ∧ lowerE ρ e 0 = some ce ∧ is = ce.instrs ++ [⟨1, tx, tx, ce.reg⟩] := by
-  obtain ⟨h1, h2, h3⟩ := pure_not_cond hp
+  obtain ⟨h1, h2, h3⟩ := valueE_not_cond hp
   rw [lowerStmt.eq_5 ρ x e h1 h2 h3] at h
   split at h
   · rename_i tx ce h1 h2; exact ⟨tx, ce, h1, h2, (Option.some.inj h).symm⟩
@@ -811,11 +1153,29 @@ theorem stmtOk_cases {e : Expr} (h : stmtOk e = true) :
   · exact .inr ⟨_, _, rfl, .inr (.inr (.inr h))⟩
   · cases h
 
+/-- the forms of a statement of the fragment: the operands of a conditional / ewma are value expressions,
+the second of which does not assign the result variable of the first -/
+theorem stmtOk2_cases {e : Expr} (h : stmtOk2 e = true) :
+    e = .none ∨ ∃ x rhs, e = .sexp .bind (.atom (.name x)) rhs ∧
+      ((∃ c v, rhs = .sexp .if c v ∧ valueE c = true ∧ valueE v = true ∧ noHazard c v = true) ∨
+       (∃ c v, rhs = .sexp .notIf c v ∧ valueE c = true ∧ valueE v = true ∧ noHazard c v = true) ∨
+       (∃ c v, rhs = .sexp .ewma c v ∧ valueE c = true ∧ valueE v = true ∧ noHazard c v = true) ∨
+       valueE rhs = true) := by
+  unfold stmtOk2 at h
+  split at h
+  · exact .inl rfl
+  · simp only [Bool.and_eq_true] at h; exact .inr ⟨_, _, rfl, .inl ⟨_, _, rfl, h.1.1, h.1.2, h.2⟩⟩
+  · simp only [Bool.and_eq_true] at h; exact .inr ⟨_, _, rfl, .inr (.inl ⟨_, _, rfl, h.1.1, h.1.2, h.2⟩)⟩
+  · simp only [Bool.and_eq_true] at h; exact .inr ⟨_, _, rfl, .inr (.inr (.inl ⟨_, _, rfl, h.1.1, h.1.2, h.2⟩))⟩
+  · exact .inr ⟨_, _, rfl, .inr (.inr (.inr h))⟩
+  · cases h
+
 /-- outcome of one (non-comment) statement -/
 def StmtRes (ρ : Rho) (env : Env) (s : Sem.SrcState) (c : Conn) (e : Expr) (is : List VInstr) : Prop :=
   (∃ s' v c', Sem.evalE env s e = .ok s' v ∧ execInstrs env c is = (c', 0) ∧ Sim ρ s' c' ∧ RegsWf c' ∧
       (noFlagWriteE e = true → s'.ev = s.ev)) ∨
-  (∃ rc c', Sem.evalE env s e = .fault s rc ∧ rc < 0 ∧ execInstrs env c is = (c', rc) ∧ Sim ρ s c' ∧ RegsWf c') ∨
+  (∃ s' rc c', Sem.evalE env s e = .fault s' rc ∧ rc < 0 ∧ execInstrs env c is = (c', rc) ∧ Sim ρ s' c' ∧
+      RegsWf c') ∨
   Sem.evalE env s e = .outside
 
 
@@ -853,15 +1213,6 @@ theorem evalE_ewma_ok {env : Env} {s s1 s2 : Sem.SrcState} {x : Name} {a b : Exp
       | some s3 => .ok s3 (Sem.read env s3 x) | none => .notDenoted := by
   rw [Sem.evalE, ha]; simp only []; rw [hb]; rfl
 
-/-- an assignment step on both sides -/
-theorem write_step {ρ : Rho} {decls : List Sem.VarDecl} (hρ : RhoOk ρ decls) {x : Name} {tx : VReg}
-    (hx : ρ x = some tx) (hp : Sem.primIndex x = none) (env : Env) {s : Sem.SrcState} {c : Conn}
-    (sim : Sim ρ s c) (wf : RegsWf c) (v : Val) :
-    ∃ s3, Sem.write env s x v = some s3 ∧ Sim ρ s3 (writeReg env c v tx) ∧ RegsWf (writeReg env c v tx) ∧
-      (x ≠ "__eventFlag".toList → s3.ev = s.ev) := by
-  obtain ⟨s3, hw⟩ := write_isSome env s x v hp
-  exact ⟨s3, hw, write_sim hρ hx hw sim wf, writeReg_wf _ _ _ _ wf, write_ev hw⟩
-
 theorem noFlagWriteE_bind {x : Name} {rhs : Expr} (h : noFlagWriteE (.sexp .bind (.atom (.name x)) rhs) = true) :
     x ≠ "__eventFlag".toList := of_decide_eq_true h
 
@@ -871,36 +1222,39 @@ theorem writesOkE_bind {x : Name} {rhs : Expr} (h : writesOkE (.sexp .bind (.ato
 theorem litsOkE_bind {x : Name} {rhs : Expr} (h : litsOkE (.sexp .bind (.atom (.name x)) rhs) = true) :
     litsOkE rhs = true := (litsOkE_sexp h).2
 
-/-- the operands of a conditional / ewma statement -/
+/-- the operands of a conditional / ewma statement (or of an operator node whose last instruction writes an
+arbitrary register) -/
 theorem cond_operands {ρ : Rho} {decls : List Sem.VarDecl} (hρ : RhoOk ρ decls) {code : Nat} {tx : VReg}
-    {a b : Expr} {ca cb : LE} (hpa : pureE a = true) (hpb : pureE b = true) (hla : litsOkE a = true)
+    {a b : Expr} {ca cb : LE} (hpa : valueE a = true) (hpb : valueE b = true) (hz : noHazard a b = true)
+    (hla : litsOkE a = true)
     (hlb : litsOkE b = true) (ha : lowerE ρ a 0 = some ca) (hb : lowerE ρ b ca.k = some cb)
     (ht : TmpsOk (ca.instrs ++ cb.instrs ++ [⟨code, tx, ca.reg, cb.reg⟩]))
     (env : Env) {s : Sem.SrcState} {c : Conn} (sim : Sim ρ s c) (wf : RegsWf c) :
-    OperandsRes ρ env s c 0 a b ca cb := by
+    OperandsRes ρ env s c a b ca cb := by
   obtain ⟨sl1, sl2, _⟩ := lowerE_shape hρ a 0 ca ha
+  obtain ⟨_, _, sr3⟩ := lowerE_shape hρ b ca.k cb hb
   obtain ⟨ht12, ht3⟩ := TmpsOk.append ht
   obtain ⟨ht1, ht2⟩ := TmpsOk.append ht12
   obtain ⟨_, hlt, hrt⟩ := ht3 _ (List.mem_singleton.mpr rfl)
-  exact operands_res sl1 (fun h => (sl2 h).2)
+  exact operands_res (fun i hi => operand_safe hρ ha hz (sr3 i hi) (fun h => (sl2 h).2))
     (lowerE_res hρ a hpa hla 0 ca env s c ha sim wf ht1 hlt)
-    (fun c1 sim1 wf1 => lowerE_res hρ b hpb hlb ca.k cb env s c1 hb sim1 wf1 ht2 hrt)
+    (fun s1 c1 sim1 wf1 => lowerE_res hρ b hpb hlb ca.k cb env s1 c1 hb sim1 wf1 ht2 hrt)
 
 theorem lowerStmt_res {ρ : Rho} {decls : List Sem.VarDecl} (hρ : RhoOk ρ decls) {e : Expr} {is : List VInstr}
-    (hok : stmtOk e = true) (hne : e ≠ .none) (hlit : litsOkE e = true) (hw : writesOkE e = true)
+    (hok : stmtOk2 e = true) (hne : e ≠ .none) (hlit : litsOkE e = true) (hw : writesOkE e = true)
     (hlow : lowerStmt ρ e = some is) (ht : TmpsOk is) (env : Env) (s : Sem.SrcState) (c : Conn)
     (sim : Sim ρ s c) (wf : RegsWf c) : StmtRes ρ env s c e is := by
-  rcases stmtOk_cases hok with rfl | ⟨x, rhs, rfl, hforms⟩
+  rcases stmtOk2_cases hok with rfl | ⟨x, rhs, rfl, hforms⟩
   · exact absurd rfl hne
   have hp : Sem.primIndex x = none := writesOkE_bind hw
   have hlr := litsOkE_bind hlit
-  rcases hforms with ⟨a, b, rfl, hpa, hpb⟩ | ⟨a, b, rfl, hpa, hpb⟩ | ⟨a, b, rfl, hpa, hpb⟩ | hpure
+  rcases hforms with ⟨a, b, rfl, hpa, hpb, hz⟩ | ⟨a, b, rfl, hpa, hpb, hz⟩ | ⟨a, b, rfl, hpa, hpb, hz⟩ | hpure
   · -- if
     rw [lowerStmt] at hlow
     obtain ⟨tx, ca, cb, hx, ha, hb, rfl⟩ := lowerCond_inv hlow
     obtain ⟨hla, hlb⟩ := litsOkE_sexp hlr
-    rcases cond_operands hρ hpa hpb hla hlb ha hb ht env sim wf with
-      ⟨av, bv, c', ea, eb, x1, sim', wf', ra, rb, fr⟩ | ⟨rc, c', hev, hrc, x1, sim', wf', fr⟩ | hev
+    rcases cond_operands hρ hpa hpb hz hla hlb ha hb ht env sim wf with
+      ⟨s1, s2, av, bv, c', ea, eb, x1, sim', wf', ra, rb, hev⟩ | ⟨sf, rc, c', hev, hrc, x1, sim', wf'⟩ | hev
     · have hstep : execInstr env c' ⟨7, tx, ca.reg, cb.reg⟩ = (if av != 0 then writeReg env c' bv tx else c', 0) := by
         simp only [execInstr, ra, rb]
       rw [StmtRes, evalE_if_ok ea eb]
@@ -909,23 +1263,23 @@ theorem lowerStmt_res {ρ : Rho} {decls : List Sem.VarDecl} (hρ : RhoOk ρ decl
         obtain ⟨s3, hw3, sim3, wf3, hev3⟩ := write_step hρ hx hp env sim' wf' bv
         rw [hw3]
         exact .inl ⟨s3, _, _, rfl, execInstrs_snoc x1 hstep (by omega), sim3, wf3,
-          fun h => hev3 (noFlagWriteE_bind h)⟩
+          fun h => (hev3 (noFlagWriteE_bind h)).trans hev⟩
       · rw [if_neg hcv] at hstep ⊢
-        exact .inl ⟨s, _, _, rfl, execInstrs_snoc x1 hstep (by omega), sim', wf', fun _ => rfl⟩
-    · refine .inr (.inl ⟨rc, c', ?_, hrc, execInstrs_append_fault _ x1 hrc, sim', wf'⟩)
-      rcases hev with ea | ⟨av, ea, eb⟩
+        exact .inl ⟨s2, _, _, rfl, execInstrs_snoc x1 hstep (by omega), sim', wf', fun _ => hev⟩
+    · refine .inr (.inl ⟨sf, rc, c', ?_, hrc, execInstrs_append_fault _ x1 hrc, sim', wf'⟩)
+      rcases hev with ea | ⟨s1, av, ea, eb⟩
       · exact evalE_cond_left b (.inl rfl) ea (by intro _ _ h; cases h)
       · exact evalE_cond_right (.inl rfl) ea eb (by intro _ _ h; cases h)
     · refine .inr (.inr ?_)
-      rcases hev with ea | ⟨av, ea, eb⟩
+      rcases hev with ea | ⟨s1, av, ea, eb⟩
       · exact evalE_cond_left b (.inl rfl) ea (by intro _ _ h; cases h)
       · exact evalE_cond_right (.inl rfl) ea eb (by intro _ _ h; cases h)
   · -- !if
     rw [lowerStmt] at hlow
     obtain ⟨tx, ca, cb, hx, ha, hb, rfl⟩ := lowerCond_inv hlow
     obtain ⟨hla, hlb⟩ := litsOkE_sexp hlr
-    rcases cond_operands hρ hpa hpb hla hlb ha hb ht env sim wf with
-      ⟨av, bv, c', ea, eb, x1, sim', wf', ra, rb, fr⟩ | ⟨rc, c', hev, hrc, x1, sim', wf', fr⟩ | hev
+    rcases cond_operands hρ hpa hpb hz hla hlb ha hb ht env sim wf with
+      ⟨s1, s2, av, bv, c', ea, eb, x1, sim', wf', ra, rb, hev⟩ | ⟨sf, rc, c', hev, hrc, x1, sim', wf'⟩ | hev
     · have hstep : execInstr env c' ⟨13, tx, ca.reg, cb.reg⟩ = (if av == 0 then writeReg env c' bv tx else c', 0) := by
         simp only [execInstr, ra, rb]
       rw [StmtRes, evalE_notIf_ok ea eb]
@@ -934,52 +1288,52 @@ theorem lowerStmt_res {ρ : Rho} {decls : List Sem.VarDecl} (hρ : RhoOk ρ decl
         obtain ⟨s3, hw3, sim3, wf3, hev3⟩ := write_step hρ hx hp env sim' wf' bv
         rw [hw3]
         exact .inl ⟨s3, _, _, rfl, execInstrs_snoc x1 hstep (by omega), sim3, wf3,
-          fun h => hev3 (noFlagWriteE_bind h)⟩
+          fun h => (hev3 (noFlagWriteE_bind h)).trans hev⟩
       · rw [if_neg hcv] at hstep ⊢
-        exact .inl ⟨s, _, _, rfl, execInstrs_snoc x1 hstep (by omega), sim', wf', fun _ => rfl⟩
-    · refine .inr (.inl ⟨rc, c', ?_, hrc, execInstrs_append_fault _ x1 hrc, sim', wf'⟩)
-      rcases hev with ea | ⟨av, ea, eb⟩
+        exact .inl ⟨s2, _, _, rfl, execInstrs_snoc x1 hstep (by omega), sim', wf', fun _ => hev⟩
+    · refine .inr (.inl ⟨sf, rc, c', ?_, hrc, execInstrs_append_fault _ x1 hrc, sim', wf'⟩)
+      rcases hev with ea | ⟨s1, av, ea, eb⟩
       · exact evalE_cond_left b (.inr (.inl rfl)) ea (by intro _ _ h; cases h)
       · exact evalE_cond_right (.inr (.inl rfl)) ea eb (by intro _ _ h; cases h)
     · refine .inr (.inr ?_)
-      rcases hev with ea | ⟨av, ea, eb⟩
+      rcases hev with ea | ⟨s1, av, ea, eb⟩
       · exact evalE_cond_left b (.inr (.inl rfl)) ea (by intro _ _ h; cases h)
       · exact evalE_cond_right (.inr (.inl rfl)) ea eb (by intro _ _ h; cases h)
   · -- ewma
     rw [lowerStmt] at hlow
     obtain ⟨tx, ca, cb, hx, ha, hb, rfl⟩ := lowerCond_inv hlow
     obtain ⟨hla, hlb⟩ := litsOkE_sexp hlr
-    rcases cond_operands hρ hpa hpb hla hlb ha hb ht env sim wf with
-      ⟨av, bv, c', ea, eb, x1, sim', wf', ra, rb, fr⟩ | ⟨rc, c', hev, hrc, x1, sim', wf', fr⟩ | hev
+    rcases cond_operands hρ hpa hpb hz hla hlb ha hb ht env sim wf with
+      ⟨s1, s2, av, bv, c', ea, eb, x1, sim', wf', ra, rb, hev⟩ | ⟨sf, rc, c', hev, hrc, x1, sim', wf'⟩ | hev
     · have hstep : execInstr env c' ⟨5, tx, ca.reg, cb.reg⟩ =
-          (writeReg env c' (ewma av (Sem.read env s x) bv) tx, 0) := by
+          (writeReg env c' (ewma av (Sem.read env s2 x) bv) tx, 0) := by
         simp only [execInstr, ra, rb, sim'.1 env x tx hx]
       rw [StmtRes, evalE_ewma_ok ea eb]
-      obtain ⟨s3, hw3, sim3, wf3, hev3⟩ := write_step hρ hx hp env sim' wf' (ewma av (Sem.read env s x) bv)
+      obtain ⟨s3, hw3, sim3, wf3, hev3⟩ := write_step hρ hx hp env sim' wf' (ewma av (Sem.read env s2 x) bv)
       rw [hw3]
       exact .inl ⟨s3, _, _, rfl, execInstrs_snoc x1 hstep (by omega), sim3, wf3,
-        fun h => hev3 (noFlagWriteE_bind h)⟩
-    · refine .inr (.inl ⟨rc, c', ?_, hrc, execInstrs_append_fault _ x1 hrc, sim', wf'⟩)
-      rcases hev with ea | ⟨av, ea, eb⟩
+        fun h => (hev3 (noFlagWriteE_bind h)).trans hev⟩
+    · refine .inr (.inl ⟨sf, rc, c', ?_, hrc, execInstrs_append_fault _ x1 hrc, sim', wf'⟩)
+      rcases hev with ea | ⟨s1, av, ea, eb⟩
       · exact evalE_cond_left b (.inr (.inr rfl)) ea (by intro _ _ h; cases h)
       · exact evalE_cond_right (.inr (.inr rfl)) ea eb (by intro _ _ h; cases h)
     · refine .inr (.inr ?_)
-      rcases hev with ea | ⟨av, ea, eb⟩
+      rcases hev with ea | ⟨s1, av, ea, eb⟩
       · exact evalE_cond_left b (.inr (.inr rfl)) ea (by intro _ _ h; cases h)
       · exact evalE_cond_right (.inr (.inr rfl)) ea eb (by intro _ _ h; cases h)
-  · -- plain assignment of a pure expression
+  · -- plain assignment of a value expression
     obtain ⟨tx, ce, hx, he, rfl⟩ := lowerStmt_bind_inv hpure hlow
     obtain ⟨ht1, ht2⟩ := TmpsOk.append ht
     obtain ⟨_, _, hrt⟩ := ht2 _ (List.mem_singleton.mpr rfl)
     rcases lowerE_res hρ rhs hpure hlr 0 ce env s c he sim wf ht1 hrt with
-      ⟨v, c', ev, x1, sim', wf', rd, fr⟩ | ⟨rc, c', ev, hrc, x1, sim', wf', fr⟩ | ev
+      ⟨s1, v, c', ev, x1, sim', wf', rd, hev⟩ | ⟨sf, rc, c', ev, hrc, x1, sim', wf'⟩ | ev
     · have hstep : execInstr env c' ⟨1, tx, tx, ce.reg⟩ = (writeReg env c' v tx, 0) := by
         simp only [execInstr, rd]
       obtain ⟨s3, hw3, sim3, wf3, hev3⟩ := write_step hρ hx hp env sim' wf' v
       rw [StmtRes, evalE_bind_ok hpure ev, hw3]
       exact .inl ⟨s3, _, _, rfl, execInstrs_snoc x1 hstep (by omega), sim3, wf3,
-        fun h => hev3 (noFlagWriteE_bind h)⟩
-    · exact .inr (.inl ⟨rc, c', evalE_bind_not_ok hpure ev (by intro _ _ h; cases h), hrc,
+        fun h => (hev3 (noFlagWriteE_bind h)).trans hev⟩
+    · exact .inr (.inl ⟨sf, rc, c', evalE_bind_not_ok hpure ev (by intro _ _ h; cases h), hrc,
         execInstrs_append_fault _ x1 hrc, sim', wf'⟩)
     · exact .inr (.inr (evalE_bind_not_ok hpure ev (by intro _ _ h; cases h)))
 
@@ -990,16 +1344,18 @@ theorem evalStmts_single (env : Env) (s : Sem.SrcState) (e : Expr) (rest : List 
       | r => r := by
   rw [Sem.evalStmts] <;> first | rfl | (intro h; exact hne h)
 
-/-- **Stage 2.** One statement: the lowered code performs the assignment. (`evalStmts env s [e]` is
-`evalE env s e` with the value dropped, and skips a comment.) -/
+/-- **Stage 2.** One statement: the lowered code performs the assignment (and the nested ones). (`evalStmts env s [e]`
+is `evalE env s e` with the value dropped, and skips a comment.) A fault leaves both sides in the states reached
+by the nested assignments made before it (for a statement of the former fragment `stmtOk` that is the state `s`
+itself: `evalE_pure_state`). -/
 theorem lowerStmt_correct {ρ : Rho} {decls : List Sem.VarDecl} (hρ : RhoOk ρ decls) (e : Expr) (is : List VInstr)
-    (hok : stmtOk e = true) (hlit : litsOkE e = true) (hw : writesOkE e = true)
+    (hok : stmtOk2 e = true) (hlit : litsOkE e = true) (hw : writesOkE e = true)
     (hlow : lowerStmt ρ e = some is) (ht : TmpsOk is) (env : Env) (s : Sem.SrcState) (c : Conn)
     (sim : Sim ρ s c) (wf : RegsWf c) :
     match Sem.evalStmts env s [e] with
     | .ok s' _ => ∃ c', execInstrs env c is = (c', 0) ∧ Sim ρ s' c' ∧ RegsWf c' ∧
         (noFlagWriteE e = true → s'.ev = s.ev)
-    | .fault s' rc => s' = s ∧ rc < 0 ∧ ∃ c', execInstrs env c is = (c', rc) ∧ Sim ρ s' c' ∧ RegsWf c'
+    | .fault s' rc => rc < 0 ∧ ∃ c', execInstrs env c is = (c', rc) ∧ Sim ρ s' c' ∧ RegsWf c'
     | .outside => True
     | .notDenoted => False := by
   by_cases hne : e = .none
@@ -1008,9 +1364,9 @@ theorem lowerStmt_correct {ρ : Rho} {decls : List Sem.VarDecl} (hρ : RhoOk ρ 
     exact ⟨c, rfl, sim, wf, fun _ => rfl⟩
   · rw [evalStmts_single env s e [] hne]
     rcases lowerStmt_res hρ hok hne hlit hw hlow ht env s c sim wf with
-      ⟨s', v, c', ev, x, sim', wf', hev⟩ | ⟨rc, c', ev, hrc, x, sim', wf'⟩ | ev
+      ⟨s', v, c', ev, x, sim', wf', hev⟩ | ⟨s', rc, c', ev, hrc, x, sim', wf'⟩ | ev
     · rw [ev]; exact ⟨c', x, sim', wf', hev⟩
-    · rw [ev]; exact ⟨rfl, hrc, c', x, sim', wf'⟩
+    · rw [ev]; exact ⟨hrc, c', x, sim', wf'⟩
     · rw [ev]; trivial
 
 end Portus.Lang.Frag
